@@ -6,7 +6,7 @@ Tie: Go interpreter outcome == Lean `runProgram` outcome (the same specification
 tied to in C01). Oracle: Go interpreter outcome == Go VM outcome (output, completion /
 fatal kind + message) on programs of the shared language.
 """
-from gen import progs, families
+from gen import progs, families, nesting
 from vlib import core, progstream
 from props.C01 import CORPUS
 
@@ -65,6 +65,13 @@ def run(ctx):
         for i in range(0, len(fsrcs), 1500):
             judge(ctx, fsrcs[i:i + 1500], f"C04 family {fam}")
         ctx.coverage[f"family_{fam}"] = len(fsrcs)
+    # the control-flow nestings of C11 (exits out of loops, try/catch, calls, with shadowed canaries), here VM vs interpreter
+    nest = [nesting.program(ws, x) for ws, x, _ in nesting.enumerate_all(2 if ctx.tier == "quick" else 3)]
+    if ctx.tier != "quick":
+        nest = nest[:600] + ctx.rng.sample(nest[600:], min(len(nest) - 600, 2500))
+    for i in range(0, len(nest), 1500):
+        judge(ctx, nest[i:i + 1500], "C04 nesting")
+    ctx.coverage["family_nesting"] = len(nest)
     n = 1200 if ctx.tier == "quick" else 20000
     srcs = [progs.generate(ctx.rng, max_depth=ctx.rng.choice([2, 3, 3, 4]))[0] for _ in range(n)]
     for i in range(0, len(srcs), 2000):
